@@ -79,7 +79,7 @@ def sites_for(variant):
     two = [
         ("trim_in", "assert 5 in snapshot([5, 7])", "in", "[5, 7]", ["5"]),
         ("fix_ge", "assert 5 >= snapshot(8)", "ge", "8", ["5"]),
-        ("mixed_sub", "s = snapshot({'a': 1, 'unused': 2})\n    assert s['a'] == 1\n    assert s['b'] == 5", "getitem", "{'a': 1, 'unused': 2}", [("'a'", "1"), ("'b'", "5")]),
+        ("mixed_sub", "s = snapshot({'a': 1, 'unused': 2 })\n    assert s['a'] == 1\n    assert s['b'] == 5", "getitem", "{'a': 1, 'unused': 2 }", [("'a'", "1"), ("'b'", "5")]),  # blank before the brace: create's insert and trim's delete overlap when applied one after the other
         ("create_ext", "assert outsource('new text') == snapshot()", None, None, None),
         ("xfail_fix", "assert 1 == snapshot(2)", "xfail", "2", ["1"]),
         ("xfail_false_fix", "assert 1 == snapshot(3)", "eq", "3", ["1"]),
